@@ -139,6 +139,21 @@ def union_dump_incomplete(ty, cfg):
     return has(ty, pred)
 
 
+def union_anon_nested(ty):
+    """a union all of whose members are anonymous aggregates, one of which has an anonymous aggregate member of its own.
+    (Pending finding, reported by s1: such a union is dumped through its anonymous structure with the union object as the
+    value; the nested anonymous member is not an attribute of the union object, so its fields are written as zeros.
+    `union U { struct { uint16 a; struct { uint16 b; uint8 c; }; uint16 d; }; }`: U(bytes(range(1, 8))).dumps() ==
+    01 02 00 00 00 06 07.)"""
+    def pred(t, d, u):
+        if t[0] != "union" or not t[1]:
+            return False
+        if not all(f["name"] is None and f["ty"][0] in ("struct", "union") for f in t[1]):
+            return False
+        return any(g["name"] is None and g["ty"][0] in ("struct", "union") for f in t[1] for g in f["ty"][1])
+    return has(ty, pred)
+
+
 # ------------------------------------------------------------------------------------------------ engine
 
 class Engine:
@@ -187,6 +202,11 @@ class Engine:
             d[k] = v.hex() if isinstance(v, (bytes, bytearray)) else v
         d["repro"] = (f"from dissect.cstruct import cstruct; cs=cstruct(endian={L.endian!r}, pointer={L.pointer!r}); "
                       f"cs.load({L.text!r}, compiled={L.compiled}, align={L.align}); T=cs.T")
+        sess = getattr(L, "session", None)
+        if sess is not None:
+            # a view on a shared instance (impl.Session): the whole operation history is the reproduction
+            d["history"] = list(sess.steps)
+            d["repro"] = sess.script([f"T = cs.{L.T.__name__}"])
         return d
 
     def sigs(self, L: impl.Loaded, extra=()):
